@@ -58,7 +58,7 @@ impl Config {
     }
     /// number of (turn,river,combo..) slots the odometer walks over the full run
     pub fn slots(&self) -> u128 {
-        self.ranges.iter().fold(1176u128, |a, r| a * r.combos.len().max(1) as u128)
+        self.ranges.iter().fold(1176u128, |a, r| a.saturating_mul(r.combos.len().max(1) as u128))
     }
     pub fn brief(&self) -> serde_json::Value {
         serde_json::json!({
